@@ -472,6 +472,14 @@ def _apply_fn(src, w, op, fn, modname):
             w.insert(hit[0].end, f': {pty}', f'{label}#closure{kidx}', 'W5')
         w.insert(toks[b0].start, f" -> ({c['ret']})\n{c['spec'].rstrip()}\n{{ ", f'{label}#closure{kidx}', 'W5')
         w.insert(toks[b1].end, ' }', f'{label}#closure{kidx}', 'W5')
+    # a closure of the real code that carries no contract tells the verifier nothing about its result: a failed obligation in
+    # this function can then not be told from a lost proof (recorded like a lost hint: no violation without a failing input)
+    n_cls = len(src.closures(fn))
+    n_spec = len(op.get('closures', {})) - sum(1 for h in getattr(w, 'lost_hints', []) if h.startswith(f'{label}: closure #'))
+    if op.get('attrs') and any('external' in a for a in op['attrs']):
+        n_cls = 0
+    if n_cls > max(n_spec, 0):
+        w.lost_hints = getattr(w, 'lost_hints', []) + [f'{label}: {n_cls - max(n_spec, 0)} closure(s) of the real code without a contract']
     for pr in op.get('proofs', []):
         b_lo, b_hi = toks[body].end, toks[toks[body].match].start
         if pr.get('at_start'):
